@@ -120,13 +120,13 @@ def run(chk):
               'the parallel host lookup writes a shared element', node=ss)
 
 
-def concat(chk):
+def concat(chk, R6='C10-R6', R1='C10-R1'):
     src = chk.src
     fn = src.func(GH, 'fast_concatenate')
     a1, a2, nt = [a.arg for a in fn.args.args][:3]
     st = own.classify_function(fn)
     shared = [s for s in st if s.cls == 'shared']
-    chk.check(bool(st) and not shared, 'C10-R1', GH, 'fast_concatenate', 'stores under prange are block-private', f'{sorted({s.cls for s in st})}',
+    chk.check(bool(st) and not shared, R1, GH, 'fast_concatenate', 'stores under prange are block-private', f'{sorted({s.cls for s in st})}',
               f'{[unparse(s.node) for s in shared]} shared', node=fn)
     txt = [unparse(s) for s in walk_no_nested(fn) if isinstance(s, ast.stmt)]
     t = {unparse(s.targets[0]): unparse(s.value) for s in fn.body if isinstance(s, ast.Assign)}
@@ -139,15 +139,15 @@ def concat(chk):
         f'for i in range(N1):\n    final_array[i] = {a1}[i]', f'for j in range(N2):\n    final_array[j + N1] = {a2}[j]', 'return final_array']
     split_line = next((s.lineno for s in fn.body if isinstance(s, ast.Assign) and unparse(s.targets[0]) == 'Nthread1'), 10**9)
     okdom = bool(early) and bool(serial) and early[0].lineno < split_line and serial[0].lineno < split_line
-    chk.check(okearly and okser and okdom, 'C10-R6', GH, 'fast_concatenate', 'empty inputs and the single-thread path return before the thread split', '',
+    chk.check(okearly and okser and okdom, R6, GH, 'fast_concatenate', 'empty inputs and the single-thread path return before the thread split', '',
               f'early returns ok={okearly}; serial path ok={okser}; they precede the split={okdom}', node=fn)
     okalloc = t.get('final_array') == f'np.empty(N1 + N2, dtype={a1}.dtype)'
     oksplit = t.get('Nthread1') == f'max(1, int(np.floor({nt} * N1 / (N1 + N2))))' and t.get('Nthread2') == f'{nt} - Nthread1'
-    chk.check(okalloc and oksplit, 'C10-R6', GH, 'fast_concatenate', 'output has N1+N2 entries; threads split proportionally with Nthread1 + Nthread2 == Nthread', '',
+    chk.check(okalloc and oksplit, R6, GH, 'fast_concatenate', 'output has N1+N2 entries; threads split proportionally with Nthread1 + Nthread2 == Nthread', '',
               f'alloc ok={okalloc}; Nthread1 = {t.get("Nthread1")}; Nthread2 = {t.get("Nthread2")}', node=fn)
     okt = t.get('hstart1') == 'np.rint(np.linspace(0, N1, Nthread1 + 1)).astype(np.int64)' and \
         t.get('hstart2') == 'np.rint(np.linspace(0, N2, Nthread2 + 1)).astype(np.int64) + N1'
-    chk.check(okt, 'C10-R6', GH, 'fast_concatenate', 'block tables tile [0,N1) and [N1,N1+N2)', '', f'hstart1 = {t.get("hstart1")}; hstart2 = {t.get("hstart2")}', node=fn)
+    chk.check(okt, R6, GH, 'fast_concatenate', 'block tables tile [0,N1) and [N1,N1+N2)', '', f'hstart1 = {t.get("hstart1")}; hstart2 = {t.get("hstart2")}', node=fn)
     lp = own.prange_loops(fn)
     okd = False
     if len(lp) == 1 and unparse(lp[0].iter).endswith(f'prange({nt})') and len(lp[0].body) == 1 and isinstance(lp[0].body[0], ast.If):
@@ -158,7 +158,7 @@ def concat(chk):
         okd = unparse(iff.test) == f'{tid} < Nthread1' and \
             b1 == [f'for i in range(hstart1[{tid}], hstart1[{tid} + 1]):\n    final_array[i] = {a1}[i]'] and \
             b2 == [f'for i in range(hstart2[{tid} - Nthread1], hstart2[{tid} + 1 - Nthread1]):\n    final_array[i] = {a2}[i - N1]']
-    chk.check(okd, 'C10-R6', GH, 'fast_concatenate', 'every tid < Nthread is dispatched to exactly one block; index map dest-src = 0 / N1 as on the serial path', '',
+    chk.check(okd, R6, GH, 'fast_concatenate', 'every tid < Nthread is dispatched to exactly one block; index map dest-src = 0 / N1 as on the serial path', '',
               'the parallel dispatch / index map differs from the serial path (dest = src for array1, dest = src + N1 for array2)', node=lp[0] if lp else fn)
     rets = [unparse(n.value) for n in walk_no_nested(fn) if isinstance(n, ast.Return)]
-    chk.check(rets.count('final_array') == 2 and len(rets) == 4, 'C10-R6', GH, 'fast_concatenate', 'returns the assembled array on both paths', '', f'returns {rets}', node=fn, nontrivial=False)
+    chk.check(rets.count('final_array') == 2 and len(rets) == 4, R6, GH, 'fast_concatenate', 'returns the assembled array on both paths', '', f'returns {rets}', node=fn, nontrivial=False)
